@@ -10,33 +10,54 @@ COUNT = {"quick": 500, "thorough": 12000, "search": 1500}
 PARALLEL = True
 EXHAUSTIVE = {"quick": False, "thorough": True}
 TOL = 1e-9          # exact paths (spline prefilter / float matrix round-off only)
-TOL_BLOB = 0.01     # interpolated paths, relative to the map's peak (the property's "smooth map" clauses); observed <= 0.006
+# Interpolated paths (the property's "smooth map" clauses), relative to the map's peak.  H4 derivation: one cubic-spline resampling
+# of a Gaussian of width sigma has error ~ K h^4 |d4f/dx4| = K' / sigma^4 of the peak (measured on 300 random rotations, sigma 1.75..2.75:
+# K' <= 0.042; 0.05 is used), plus the Gaussian tail the 3.3-sigma generator rule lets touch the zero boundary of affine_transform,
+# exp(-3.3^2/2) = 0.0043.  A rotate-then-invert (or symmetrise-then-rotate) path resamples twice: twice the bound.  At the smallest
+# generated sigma (1.75) this gives 0.0098 for one pass (largest seen 0.0036) and 0.0196 for two (largest seen 0.00702, audit 2).
+def _tol_blob(sigmas, passes=1):
+    return passes * (0.05 / min(sigmas) ** 4 + 0.0045)
+
+
 BLOB_SHELL = 0.015  # placeblob: voxels whose analytic value is within this of the 0.1 threshold may fall either way (spline error)
 RULE = ("seven case kinds from one PRNG: rot24 = one of the 64 quarter-turn zxz triples (all 24 cube rotations) on an integer-valued box "
         "5..9 per axis (odd, even, non-cubic) and non-cubic boxes up to 16 whose first/last floor-halves differ, every voxel >=1 away from the "
-        "faces compared; the rotation-object path with transpose_rotation=True (70 %) or omitted (30 %, library default); rotblob = random zxz "
-        "angles on 1-3 isotropic Gaussians (sigma 1.75-2.75, 3.3 sigma inside the box) in a 18-24 box, compared with the analytic Gaussians at "
-        "c+R*v (numpy Rz Rx Rz, independent of implementation and model) and rotate-back; extract = extract_subvolume windows of any parity "
-        "(1..13 per axis, up to and beyond the volume size, incl. all-odd >= 9) fully inside / partly / fully outside integer-valued volumes of "
-        "dtype float64/int16/int32/uint8, centre coordinates on the 1/4 grid; the same volume / coordinate array / shape list then serves a second "
-        "extract, enforce_shape=True (25 %), crop with and without crop_coord (30 % default centre), pad with and without fill_value (default mean); "
-        "place = place_object with 1..20 poses, templates 3..9 per axis (odd, even, mixed parity, non-cubic), one template or a list of different "
-        "templates with repeated bit-identical angles, quarter-turn orientations (fully modelled) or 20 % arbitrary orientations (mask taken from "
-        "the real rotate: consistency only), positions x+shift on the 1/4 grid in and around the container, colouring field object_id (keyword "
-        "omitted in 2/3 of these: default)/score/geom1/class, default / offset / shuffled / filtered DataFrame index, volume or volume_shape, 30 % "
-        "with a second call on the same template array(s) and Motl after an in-place flip / colour change; placeblob = a Gaussian-blob template at "
-        "offset v, one particle with arbitrary orientation: stamped voxels vs the analytic ball at start+floor(s/2)+R*v (exact outside a thin "
-        "threshold shell) and centre of mass within 0.1 voxel; symexact = symmetrize_volume n in {1,2,4} on integer boxes (exact); symblob = n in "
-        "2..12 on Gaussian blobs vs the analytic mean of the rotated Gaussians. Every call: caller-owned inputs compared before/after, dtype / "
-        "type / shape of the result recorded. non-trivial = rotation != identity / >=1 stamped voxel / n>=2 / blob asymmetric; distinct = distinct case content")
+        "faces compared; the rotation-object path with transpose_rotation=True (70 %) or omitted (30 %, library default); in 60 % one more call "
+        "with a non-default option or argument form (radians, intrinsic 'ZXZ', spline_order=1, tuple / ndarray angles, a file name); rotblob = "
+        "random zxz angles on 1-3 isotropic Gaussians (sigma 1.75-2.75, 3.3 sigma inside the box) in a 18-24 box, compared with the analytic "
+        "Gaussians at c+R*v (numpy Rz Rx Rz, independent of implementation and model) and rotate-back, tolerance 0.05/sigma^4+0.0045 per "
+        "resampling; extract = extract_subvolume windows of any parity (1..13 per axis, up to and beyond the volume size, incl. all-odd >= 9) "
+        "fully inside / partly / fully outside volumes of dtype float64 (integer or eighth-valued) / int16 / int32 / uint8, centre coordinates on "
+        "the 1/4 grid given as ndarray / tuple / list, shape as list / tuple / ndarray; then enforce_shape=True (25 %), crop with and without "
+        "crop_coord (30 % default centre), pad with and without fill_value (default mean; 15 % of pads to a smaller size: reject branch), 12 % of "
+        "crop / pad through a file name; then the SAME volume array is flipped and offset in place, the coordinate moved, and a second extract "
+        "is judged on the edited inputs; place = place_object with 1..20 poses, templates 3..9 per axis (odd, even, mixed parity, non-cubic), one "
+        "template or a list of different templates with repeated bit-identical angles, right-angle orientations of either sign and beyond one turn "
+        "(fully modelled, from the table rows through get_rotations / get_coordinates) or 20 % arbitrary orientations with two decimals (mask "
+        "taken from the real rotate: consistency only), positions x+shift on the 1/4 grid or with two decimals in and around the container, "
+        "colouring field object_id (keyword omitted in 2/3 of these: default) / score / geom1 / class with values <= 0 too, default / offset / "
+        "shuffled / filtered / duplicated DataFrame index, float or int64 columns, volume (array or file name) or volume_shape (tuple / list); "
+        "30 % with Motl.shift_positions(v) (in place, default, or inplace=False) before placing; 40 % with a second call on the same template "
+        "array(s) and Motl after in-place edits of the template (flip), the colour, the Euler angles (+quarter turns), x (+-2) and shift (+-1); "
+        "after every call get_angles / get_rotations / get_coordinates are compared with the table; placeblob = a Gaussian-blob template at "
+        "offset v, one particle with arbitrary orientation (two decimals or 1/4 degree): stamped voxels vs the analytic ball at (voxel of pos-1) + "
+        "R*v (exact outside a thin threshold shell) and centre of mass within 0.1 voxel, orientation matrix to 1e-12; symexact = "
+        "symmetrize_volume n in {1,2,4} on integer boxes (exact), symmetry given as int / 'C<n>' / float; symblob = n in 2..12 on Gaussian blobs "
+        "vs the analytic mean of the rotated Gaussians. `at the particle's position` is judged by the statement (template centre floor(s/2) on "
+        "the voxel of pos-1, floor or round-half-up for fractional positions), not by the code's window formula (defect D33: odd template axes "
+        "with frac(pos) < 1/2 sat one voxel low). Every "
+        "call: caller-owned inputs compared before/after, dtype / type / shape of the result recorded (corr). non-trivial = rotation != identity "
+        "/ >=1 stamped voxel / n>=2 / blob asymmetric; distinct = distinct case content")
 ASSUMPTIONS = [
     "scipy.ndimage.affine_transform(order=3, mode='constant') reproduces samples at integer source coordinates (to 1e-9) and returns 0 for "
     "sources outside [0,N-1]; probed each run (identity and quarter-turn rotations); sources exactly on a face are excluded (rounding)",
     "scipy Rotation.from_euler('zxz',[phi,theta,psi],degrees=True).as_matrix() = Rz(psi)Rx(theta)Rz(phi) = Lean zxz; probed each run on the 64 quarter-turn triples and on random angles",
     "numpy float arithmetic on integer-valued / dyadic voxels is exact (sums, mean = correctly rounded quotient)",
-    "spline interpolation accuracy on band-limited blobs is scipy's: the 1 % clauses (observed <= 0.6 %) are validated, not proved",
+    "spline interpolation accuracy on band-limited blobs is scipy's: the smooth-map clauses are validated against analytic Gaussians with the tolerance "
+    "0.05/sigma^4 + 0.0045 of the peak per resampling (derivation at _tol_blob; largest seen: 0.36 % one pass, 0.70 % rotate-then-invert), not proved",
 ]
-TRUSTED = ["props/c14.py independent evaluators of the statement (painter's algorithm, window formula, analytic Gaussians, numpy Rz Rx Rz)"]
+TRUSTED = ["props/c14.py independent evaluators of the statement (painter's algorithm with the template centre on the voxel of pos-1, window formula, "
+           "analytic Gaussians, numpy Rz Rx Rz of the angle columns, exact x + shift)"]
 
 MAP = "cryocat/cryomap.py"
 MOTL = "cryocat/cryomotl.py"
@@ -44,22 +65,26 @@ COLUMNS = ["score", "geom1", "geom2", "subtomo_id", "tomo_id", "object_id", "sub
            "shift_x", "shift_y", "shift_z", "geom3", "geom4", "geom5", "phi", "psi", "theta", "class"]
 
 # ------------------------------------------------------------------ translator (pure ast)
-# Local variable names as the source has them today, in order of first binding.  The translator renames the k-th local of
-# each function to the k-th documented name before extracting anything, so a pure renaming of locals leaves every anchor
-# unchanged, while an added / removed / re-ordered local shifts the names and breaks the `*_documented` theorems.
+# Real local variable names as the source has them today (a name that is bound but never read is a DISCARD: every discard
+# binding is shown as `_` and none of them takes part in the renaming, so `vs, ve, _, _ = f()` and `vs, ve, _a, _b = f()` are
+# the same statement).  Canonicalisation is by NAME first: a local that still carries its documented name keeps it, wherever
+# it is bound; only locals with an undocumented name are mapped - in order of their binding occurrence - onto the documented
+# names that no longer occur.  A pure renaming of locals therefore leaves every anchor unchanged, a re-ordered statement shows
+# up as exactly that statement (never as a cascade of shifted names), and an added local keeps its own name in the dump.
 DOC_LOCALS = {
     "rotate": ["T", "structure_center", "rot_matrix", "rot", "final_matrix", "rot_struct"],
     "get_start_end_indices": ["subvolume_half", "volume_start", "volume_end", "volume_start_clip", "volume_end_clip", "subvolume_start", "subvolume_end"],
     "extract_subvolume": ["vs", "ve", "ss", "se", "subvolume"],
-    "crop": ["vs", "ve", "_", "cropped_volume"],
+    "crop": ["vs", "ve", "cropped_volume"],
     "pad": ["volume", "padded_volume", "vol_size", "x_start", "y_start", "z_start", "x_end", "y_end", "z_end"],
-    "place_object": ["object_container", "rotations", "coordinates", "colors", "i", "coord", "object_map", "ls", "le", "os", "oe", "object_shape"],
+    "place_object": ["object_container", "rotations", "coordinates", "colors", "i", "coord", "object_map", "centre_coord", "ls", "le", "os", "oe", "object_shape"],
     "symmetrize_volume": ["nfold", "inplane_step", "rotated_sum", "inplane", "rotated_volume", "sym_vol"],
     "Motl.get_rotations": ["angles", "rotations"],
     "Motl.get_angles": ["angles"],
     "Motl.get_coordinates": ["coord"],
-    "Motl.shift_positions.shift_coords": ["v", "euler_angles", "orientations", "rshifts"],
+    "Motl.shift_positions": ["shift_coords", "row", "v", "euler_angles", "orientations", "rshifts", "new_motl"],
 }
+_LOG_CALLS = ("print", "warn", "warning", "info", "debug", "error", "critical", "exception", "log")
 
 
 def _params(fn):
@@ -67,38 +92,103 @@ def _params(fn):
     return [x.arg for x in a.posonlyargs + a.args + a.kwonlyargs] + ([a.vararg.arg] if a.vararg else []) + ([a.kwarg.arg] if a.kwarg else [])
 
 
-def _locals_in_order(fn):
+class _Strip(ast.NodeTransformer):
+    """H1: what the model mirrors is the computation - type annotations (`x: T = v` is `x = v`), docstrings and the wording of
+    exception / warning / log messages are not part of it"""
+
+    def _fn(self, n):
+        self.generic_visit(n)
+        n.returns = None
+        a = n.args
+        for x in a.posonlyargs + a.args + a.kwonlyargs + [y for y in (a.vararg, a.kwarg) if y is not None]:
+            x.annotation = None
+        if n.body and _is_doc(n.body[0]):
+            n.body = n.body[1:] or [ast.Pass()]
+        return n
+    visit_FunctionDef = _fn
+    visit_AsyncFunctionDef = _fn
+
+    def visit_AnnAssign(self, n):
+        self.generic_visit(n)
+        if n.value is None:
+            return None
+        return ast.copy_location(ast.Assign(targets=[n.target], value=n.value), n)
+
+    def visit_Raise(self, n):      # the exception class, not the wording of its message
+        self.generic_visit(n)
+        if isinstance(n.exc, ast.Call):
+            n.exc = n.exc.func
+        n.cause = None
+        return n
+
+    def visit_Call(self, n):
+        self.generic_visit(n)
+        f = n.func.attr if isinstance(n.func, ast.Attribute) else (n.func.id if isinstance(n.func, ast.Name) else "")
+        if f in _LOG_CALLS:
+            msg = lambda x: isinstance(x, ast.JoinedStr) or (isinstance(x, ast.Constant) and isinstance(x.value, str))
+            n.args = [ast.Constant("<msg>") if msg(x) else x for x in n.args]
+        return n
+
+
+def _bindings(fn):
+    """binding occurrences inside fn in source order: assigned names, loop / with / except targets, nested functions and the
+    parameters of nested functions (the parameters of fn itself are its interface and keep their names)"""
     params = set(_params(fn))
-    stores = []
+    occ = []
     for n in ast.walk(fn):
         if isinstance(n, ast.Name) and isinstance(n.ctx, ast.Store) and n.id not in params:
-            stores.append((n.lineno, n.col_offset, n.id))
+            occ.append((n.lineno, n.col_offset, n.id))
         elif isinstance(n, (ast.FunctionDef, ast.AsyncFunctionDef)) and n is not fn:
-            stores.append((n.lineno, n.col_offset, n.name))
+            occ.append((n.lineno, n.col_offset, n.name))
+            a = n.args
+            for x in a.posonlyargs + a.args + a.kwonlyargs + [y for y in (a.vararg, a.kwarg) if y is not None]:
+                occ.append((x.lineno, x.col_offset, x.arg))
+        elif isinstance(n, ast.ExceptHandler) and n.name:
+            occ.append((n.lineno, n.col_offset, n.name))
     out = []
-    for _, _, name in sorted(stores):
+    for _, _, name in sorted(occ):
         if name not in out:
             out.append(name)
     return out
 
 
 def _canon(fn, doc):
-    """copy of fn with its k-th local renamed to doc[k] (L<k> beyond the documented ones)"""
+    """copy of fn, stripped (H1) and with its locals canonically named (H2); `fn.c14_orig` maps canonical name -> source name"""
     import copy
-    fn = copy.deepcopy(fn)
-    loc = _locals_in_order(fn)
-    ren = {name: (doc[k] if k < len(doc) else f"L{k}") for k, name in enumerate(loc)}
+    fn = _Strip().visit(copy.deepcopy(fn))
+    ast.fix_missing_locations(fn)
+    bound = _bindings(fn)
+    read = {n.id for n in ast.walk(fn) if isinstance(n, ast.Name) and isinstance(n.ctx, ast.Load)}
+    nested = {n.name for n in ast.walk(fn) if isinstance(n, (ast.FunctionDef, ast.AsyncFunctionDef)) and n is not fn}
+    real = [b for b in bound if b in read or b in nested]
+    ren = {b: "_" for b in bound if b not in real}                 # discards: each binding on its own, all shown as `_`
+    unknown = [b for b in real if b not in doc]
+    missing = [d for d in doc if d not in real]
+    ren.update(dict(zip(unknown, missing)))
     # a rename must not capture another identifier of the function (a global that happens to carry a documented name)
-    free = {n.id for n in ast.walk(fn) if isinstance(n, ast.Name)} - set(loc)
+    free = {n.id for n in ast.walk(fn) if isinstance(n, ast.Name)} - set(bound)
     for old, new_ in ren.items():
-        if new_ != old and new_ in free:
-            raise core.AnchorMissing(f"{fn.name}: local {old} would be renamed onto the free name {new_}")
+        if new_ != old and new_ != "_" and new_ in free:
+            raise core.AnchorMissing(f"{fn.name}: local `{old}` would be renamed onto the free name `{new_}`")
     for n in ast.walk(fn):
         if isinstance(n, ast.Name) and n.id in ren:
             n.id = ren[n.id]
         elif isinstance(n, (ast.FunctionDef, ast.AsyncFunctionDef)) and n.name in ren:
             n.name = ren[n.name]
+        elif isinstance(n, ast.arg) and n.arg in ren and n.arg not in _params(fn):
+            n.arg = ren[n.arg]
+        elif isinstance(n, ast.ExceptHandler) and n.name in ren:
+            n.name = ren[n.name]
+    fn.c14_orig = {new_: old for old, new_ in ren.items() if new_ != old and new_ != "_"}
     return fn
+
+
+def _as_source(fn, text):
+    """the identifiers of `text` (canonical names) as the source spells them today - for messages"""
+    import re
+    orig = getattr(fn, "c14_orig", {})
+    src = re.sub(r"[A-Za-z_][A-Za-z_0-9]*", lambda m: orig.get(m.group(0), m.group(0)), text)
+    return f"`{text}`" if src == text else f"`{text}` (in the source today: `{src}`)"
 
 
 def _is_doc(st):
@@ -164,7 +254,7 @@ def _assign_value(fn, target):
         if isinstance(n, ast.Assign) and len(n.targets) == 1 and ast.unparse(n.targets[0]).replace(" ", "") == target:
             out.append((n.lineno, core.norm_expr(n.value)))
     if not out:
-        raise core.AnchorMissing(f"{fn.name}: no assignment to {target}")
+        raise core.AnchorMissing(f"{fn.name}: no assignment to {_as_source(fn, target)}")
     return [v for _, v in sorted(out)]
 
 
@@ -250,6 +340,7 @@ def translate(src):
     p_coord = A("place_object:coordinates", lambda: _assign_value(po(), "coordinates"))
     p_col = A("place_object:colors", lambda: _assign_value(po(), "colors"))
     p_obj = A("place_object:object_map", lambda: _assign_value(po(), "object_map"))
+    p_ctr = A("place_object:centre_coord (half a voxel up on axes of odd template size)", lambda: _assign_value(po(), "centre_coord"))
     p_idx = A("place_object:get_start_end_indices call", lambda: [core.norm_expr(c) for c in _calls(po(), "get_start_end_indices")])
     p_shape = A("place_object:object_shape", lambda: _assign_value(po(), "object_shape"))
     p_loop = A("place_object:loop", lambda: [core.norm_expr(n.target) + " in " + core.norm_expr(n.iter) for n in ast.walk(po()) if isinstance(n, ast.For)])
@@ -314,20 +405,23 @@ def translate(src):
     m_crd = A("Motl.get_coordinates:x+shift_x", m_coords)
 
     def m_shift():
-        fn = cf(MOTL, "Motl.shift_positions.shift_coords")
+        fn = cf(MOTL, "Motl.shift_positions")      # the nested shift_coords(row) is canonicalised with it (its parameter is a local)
         return _assign_value(fn, "euler_angles") + _assign_value(fn, "orientations") + _assign_value(fn, "rshifts")
     m_sh = A("Motl.shift_positions:orientation applied to the shift", m_shift)
     # ---- whole bodies (every statement, nested blocks included) and signatures (every default) ----
-    FNS = [("rotate", "rotate"), ("window", "get_start_end_indices"), ("extract", "extract_subvolume"), ("crop", "crop"), ("pad", "pad"),
-           ("place", "place_object"), ("sym", "symmetrize_volume")]
-    bodies = {k: A(f"{q}:whole body", (lambda q=q: _dump(cf(MAP, q).body))) for k, q in FNS}
-    sigs = {k: A(f"{q}:signature and defaults", (lambda q=q: _sig(cf(MAP, q)))) for k, q in FNS}
+    FNS = [("rotate", MAP, "rotate"), ("window", MAP, "get_start_end_indices"), ("extract", MAP, "extract_subvolume"), ("crop", MAP, "crop"),
+           ("pad", MAP, "pad"), ("place", MAP, "place_object"), ("sym", MAP, "symmetrize_volume"),
+           # the accessors place_object relies on, and the method that moves a particle by an offset in its own frame
+           ("motlRotations", MOTL, "Motl.get_rotations"), ("motlAngles", MOTL, "Motl.get_angles"), ("motlCoords", MOTL, "Motl.get_coordinates"),
+           ("motlShift", MOTL, "Motl.shift_positions")]
+    bodies = {k: A(f"{q}:whole body", (lambda r=r, q=q: _dump(cf(r, q).body))) for k, r, q in FNS}
+    sigs = {k: A(f"{q}:signature and defaults", (lambda r=r, q=q: _sig(cf(r, q)))) for k, r, q in FNS}
 
     ls = lambda v: SL(v if isinstance(v, list) else [])
     thr_ok = isinstance(thr, list)
     # a missing anchor never silently changes the model: the documented value is used (anchorsOk is false anyway)
     thr_fr = Fraction(thr[1]) if thr_ok else Fraction(1, 10)
-    extra = "".join(f"def {k}Body : List String := {ls(bodies[k])}\ndef {k}Sig : List String := {ls(sigs[k])}\n" for k, _ in FNS)
+    extra = "".join(f"def {k}Body : List String := {ls(bodies[k])}\ndef {k}Sig : List String := {ls(sigs[k])}\n" for k, _, _ in FNS)
     return f"""-- GENERATED by harness/props/c14.py from {MAP} and {MOTL}; do not edit
 namespace CryoCat.Gen.C14
 def anchorsOk : Bool := {"true" if src.ok else "false"}
@@ -352,6 +446,7 @@ def placeRotations : List String := {ls(p_rot)}
 def placeCoordinates : List String := {ls(p_coord)}
 def placeColors : List String := {ls(p_col)}
 def placeObjectMap : List String := {ls(p_obj)}
+def placeCentreCoord : List String := {ls(p_ctr)}
 def placeIndexCall : List String := {ls(p_idx)}
 def placeObjectShape : List String := {ls(p_shape)}
 def placeLoop : List String := {ls(p_loop)}
@@ -465,7 +560,9 @@ def gen_rot24(rng, q=None, shape=None):
             shape = rng.choice([[8, 12, 10], [12, 12, 16], [10, 7, 13], [6, 11, 9]])
     q = q or [rng.randrange(4) for _ in range(3)]
     # G1: `transpose_rotation` is passed explicitly (True) in ~70 %, omitted (library default False) in ~30 %
-    return dict(kind="rot24", shape=shape, data=_intvol(rng, shape, sparse=rng.random() < 0.3), q=list(q), plain=rng.random() < 0.3)
+    return dict(kind="rot24", shape=shape, data=_intvol(rng, shape, sparse=rng.random() < 0.3), q=list(q), plain=rng.random() < 0.3,
+                # item 6: one more call with a non-default option / argument form (None in half of the cases)
+                alt=rng.choice([None, None, None, None, "radians", "ZXZ", "order1", "tuple", "ndarray", "path"]))
 
 
 def _blobs(rng, N, nmax=3):
@@ -520,10 +617,23 @@ def gen_extract(rng):
     dtype = rng.choice(_DTYPES)
     case = dict(kind="extract", data=_intvol(rng, V, lo=0 if dtype == "uint8" else -9), dtype=dtype, num=num, den=den, sub=sub,
                 enforce=rng.random() < 0.25,            # explicit enforce_shape=True (default False is what `out` exercises)
-                crop_default=rng.random() < 0.3)         # G1: crop_coord omitted -> box centre
+                crop_default=rng.random() < 0.3,         # G1: crop_coord omitted -> box centre
+                # item 6: non-integer voxels (eighths: sums and the mean stay exact in binary floating point)
+                vden=8 if dtype == "float64" and rng.random() < 0.4 else 1,
+                # H3: array-like arguments as a user passes them
+                coord_as=rng.choice(["ndarray", "ndarray", "tuple", "list"]), sub_as=rng.choice(["list", "list", "tuple", "ndarray"]),
+                # G2 / work list 1: between the first and the second extract the SAME volume array is legitimately edited in place
+                # (flipped, offset: another mean) and the coordinate moved; the second call is judged on the edited inputs
+                again=dict(flip=rng.randrange(3), add=rng.randint(0, 5), dnum=[rng.randint(-2, 2) * den for _ in range(3)]))
     if rng.random() < 0.3:
         fill = None if rng.random() < 0.5 else [rng.randint(-40, 40), 8]      # G1: fill_value omitted -> volume mean
         case["pad"] = dict(nsize=[v + rng.choice([0, 0, 1, 2, 3, 5]) for v in V], fill=fill)
+        if rng.random() < 0.15:      # item 6: a new size smaller than the volume on an axis - pad cannot place the volume (model: reject)
+            ax = rng.randrange(3)
+            if V[ax] > 1:
+                case["pad"]["nsize"][ax] = V[ax] - rng.randint(1, min(2, V[ax] - 1))
+    if rng.random() < 0.12:          # item 6: crop / pad given a file name (what `read` turns into an array)
+        case["via_path"] = True
     return case
 
 
@@ -539,6 +649,16 @@ def _template(rng, tshape):
     return t.tolist()
 
 
+def _off_boundary(rng, den):
+    """a shift numerator whose fractional part is neither 0 nor 1/2 (>= 1/20 away): the voxel a position falls into does not
+    depend on the last bit of a rotated shift"""
+    while True:
+        k = rng.randint(-2 * den, 2 * den)
+        r = (k % den) / den
+        if min(abs(r - b) for b in (0.0, 0.5, 1.0)) >= 0.05:
+            return k
+
+
 def gen_place(rng, tier="quick"):
     C = _shape(rng, 8, 14)
     ts = rng.randint(3, 9)                                # odd, even: 3..9
@@ -550,19 +670,32 @@ def gen_place(rng, tier="quick"):
     feature = rng.choice(["object_id", "object_id", "object_id", "score", "geom1", "class"])
     general = rng.random() < 0.2
     tlist = (not general) and rng.random() < 0.3           # the list entry point: one template per particle
+    pden = 4 if rng.random() < 0.7 else 100                # H3: shifts on the 1/4 grid, or decimal shifts with two places
+    # item 3: Motl.shift_positions (an offset in the particle's own frame) before placing; positions then carry the round-off
+    # of the rotated offset, so they stay away from the voxel boundaries 0 and 1/2
+    shiftpos = None
+    if not general and rng.random() < 0.3:
+        while True:
+            v = [rng.randint(-3, 3) for _ in range(3)]
+            if any(v):
+                break
+        shiftpos = dict(v=v, inplace=rng.choice([None, True, False]))
     parts = []
     for i in range(n):
         pos = [rng.randint(-2, c + 3) for c in C]
-        sh4 = [rng.randint(-8, 8) if rng.random() < 0.6 else 0 for _ in range(3)]
+        if shiftpos is not None:
+            sh = [_off_boundary(rng, pden) for _ in range(3)]
+        else:
+            sh = [rng.randint(-2 * pden, 2 * pden) if rng.random() < 0.6 else 0 for _ in range(3)]
         if feature == "score":
-            col = [rng.randint(1, 64), 64]
+            col = [rng.randint(-16, 64), 64]
         else:
-            col = [rng.randint(1, 30), 1]
-        p = dict(pos=pos, shift4=sh4, col=col)
-        if general:
-            p["angles"] = [rng.randint(-720, 720) / 4.0, rng.randint(0, 720) / 4.0, rng.randint(-720, 720) / 4.0]
+            col = [rng.randint(-3, 30), 1]                # item 6: colours <= 0 too
+        p = dict(pos=pos, shift4=sh, col=col)
+        if general:                                        # H3: decimal angles (two places), off the dyadic grid
+            p["angles"] = [rng.randint(-18000, 18000) / 100.0, rng.randint(0, 18000) / 100.0, rng.randint(-18000, 18000) / 100.0]
         else:
-            p["q"] = [rng.randrange(4) for _ in range(3)]
+            p["q"] = [rng.randint(-4, 7) for _ in range(3)]         # right angles of any sign, beyond one turn
             if tlist:
                 p["tdata"] = _template(rng, tshape)
                 if i > 0 and rng.random() < 0.5:       # bit-identical angles for particles with different templates
@@ -572,11 +705,25 @@ def gen_place(rng, tier="quick"):
     if rng.random() < 0.4:
         cinit = [[[rng.choice([0, 0, 0, 77, -5]) for _ in range(C[2])] for _ in range(C[1])] for _ in range(C[0])]
     case = dict(kind="place", cshape=C, cinit=cinit, tshape=tshape, tdata=_template(rng, tshape), tden=tden, parts=parts, feature=feature,
-                index=rng.choice(["default", "offset", "shuffled", "filtered"]), tlist=tlist,
-                kw_feature=not (feature == "object_id" and rng.random() < 0.65))       # G1: feature_to_color omitted -> 'object_id'
-    if not general and rng.random() < 0.3:
-        # G2: the same template array(s) and the same Motl object serve a second call after a legitimate in-place edit
-        case["second"] = dict(flip=rng.randrange(3), coladd=rng.randint(1, 5))
+                index=rng.choice(["default", "offset", "shuffled", "filtered", "duplicated"]), tlist=tlist, pden=pden,
+                kw_feature=not (feature == "object_id" and rng.random() < 0.65),       # G1: feature_to_color omitted -> 'object_id'
+                vshape_as=rng.choice(["tuple", "list"]),
+                # H3: a table read from a STAR file whose values are all whole numbers has int64 columns
+                intcols=shiftpos is None and rng.random() < 0.3)
+    if shiftpos is not None:
+        case["shiftpos"] = shiftpos
+    if cinit is not None and rng.random() < 0.2:
+        case["cinit_path"] = True                          # item 6: the container given as a file name
+    if not general and rng.random() < 0.4:
+        # G2: the same template array(s) and the same Motl object serve a second call after legitimate in-place edits of the
+        # template, the colouring field, the Euler angles and the positions (work list 1: a stale cache of orientations or
+        # coordinates must show)
+        while True:
+            dq = [rng.randint(0, 3) for _ in range(3)]
+            if dq[0] or dq[2]:
+                break
+        case["second"] = dict(flip=rng.randrange(3), coladd=rng.randint(1, 5), dq=dq, dpos=[rng.randint(-2, 2) for _ in range(3)],
+                              dhalf=[rng.randint(-2, 2) for _ in range(3)])
     return case
 
 
@@ -592,7 +739,10 @@ def gen_placeblob(rng):
             break
     C = [rng.randint(t + 6, t + 14) for t in T]
     pos4 = [rng.randint(4 * (t // 2 + 2), 4 * (c - t // 2 - 1)) for t, c in zip(T, C)]
-    ang = [rng.randint(-720, 720) / 4.0, rng.randint(0, 720) / 4.0, rng.randint(-720, 720) / 4.0]
+    if rng.random() < 0.5:      # H3: decimal angles with two places (off the dyadic grid), else the 1/4-degree grid
+        ang = [rng.randint(-18000, 18000) / 100.0, rng.randint(0, 18000) / 100.0, rng.randint(-18000, 18000) / 100.0]
+    else:
+        ang = [rng.randint(-720, 720) / 4.0, rng.randint(0, 720) / 4.0, rng.randint(-720, 720) / 4.0]
     if rng.random() < 0.1:
         ang = [90.0 * rng.randrange(4) for _ in range(3)]
     return dict(kind="placeblob", tshape=T, sigma=sig, v=v, cshape=C, pos4=pos4, angles=ang, col=rng.randint(1, 30))
@@ -604,7 +754,7 @@ def gen_symexact(rng, n=None):
     if rng.random() < 0.5:
         shape[1] = shape[0]
     zf = rng.random() < 0.5
-    return dict(kind="symexact", n=n, shape=shape, data=_intvol(rng, shape, zero_faces=zf), zero_faces=zf, form=rng.choice(["int", "str"]))
+    return dict(kind="symexact", n=n, shape=shape, data=_intvol(rng, shape, zero_faces=zf), zero_faces=zf, form=rng.choice(["int", "str", "float"]))
 
 
 def _blobs_z(rng, N):
@@ -625,7 +775,7 @@ def _blobs_z(rng, N):
 
 def gen_symblob(rng, n=None):
     N = rng.randint(24, 30)
-    return dict(kind="symblob", n=n or rng.randint(2, 12), N=N, blobs=_blobs_z(rng, N), form=rng.choice(["int", "str"]))
+    return dict(kind="symblob", n=n or rng.randint(2, 12), N=N, blobs=_blobs_z(rng, N), form=rng.choice(["int", "str", "float"]))
 
 
 def generate(rng, tier, n):
@@ -681,7 +831,12 @@ def shrink(case):
             for i in range(len(parts)):
                 yield dict(case, parts=parts[:i] + parts[i + 1:])
         if case.get("cinit") is not None:
-            yield dict(case, cinit=None)
+            yield {kk: vv for kk, vv in dict(case, cinit=None).items() if kk != "cinit_path"}
+        for opt in ("shiftpos", "cinit_path"):
+            if case.get(opt) is not None:
+                yield {kk: vv for kk, vv in case.items() if kk != opt}
+        if case.get("intcols"):
+            yield dict(case, intcols=False)
         if case["index"] != "default":
             yield dict(case, index="default")
         for i, p in enumerate(parts):
@@ -690,13 +845,20 @@ def shrink(case):
             if "q" in p and any(p["q"]) and not case.get("tlist"):
                 yield dict(case, parts=parts[:i] + [dict(p, q=[0, 0, 0])] + parts[i + 1:])
     elif k in ("rot24", "symexact", "extract"):
+        if k == "rot24" and case.get("alt") is not None:
+            yield dict(case, alt=None)
         if k == "extract":
-            for opt in ("pad",):
+            for opt in ("pad", "again", "via_path"):
                 if case.get(opt) is not None:
                     yield {kk: vv for kk, vv in case.items() if kk != opt}
             for opt in ("enforce", "crop_default"):
                 if case.get(opt):
                     yield dict(case, **{opt: False})
+            if case.get("vden", 1) != 1:
+                yield dict(case, vden=1)
+            for opt in ("coord_as", "sub_as"):
+                if case.get(opt) not in (None, "ndarray" if opt == "coord_as" else "list"):
+                    yield dict(case, **{opt: "ndarray" if opt == "coord_as" else "list"})
         d = np.array(case["data"])
         nz = np.argwhere(d != 0)
         if len(nz) > 1:
@@ -719,15 +881,20 @@ def _motl(case):
     from cryocat import cryomotl
     parts = case["parts"]
     n = len(parts)
+    den = case.get("pden", 4)
     df = pd.DataFrame({c: np.zeros(n) for c in COLUMNS})
     for i, p in enumerate(parts):
         df.loc[i, ["x", "y", "z"]] = [float(v) for v in p["pos"]]
-        df.loc[i, ["shift_x", "shift_y", "shift_z"]] = [v / 4.0 for v in p["shift4"]]
+        df.loc[i, ["shift_x", "shift_y", "shift_z"]] = [v / den for v in p["shift4"]]
         ang = p["angles"] if "angles" in p else [90.0 * q for q in p["q"]]
         df.loc[i, ["phi", "theta", "psi"]] = ang
         df.loc[i, "subtomo_id"] = i + 1
         df.loc[i, "tomo_id"] = 1
         df.loc[i, case["feature"]] = p["col"][0] / p["col"][1]
+    if case.get("intcols"):
+        for c in COLUMNS:
+            if bool((df[c] == np.floor(df[c])).all()):
+                df[c] = df[c].astype("int64")
     mode = case.get("index", "default")
     if mode == "offset":
         df.index = np.arange(n) + 5
@@ -735,7 +902,46 @@ def _motl(case):
         df.index = [(7 * i + 3) % n for i in range(n)] if n > 1 and math.gcd(7, n) == 1 else np.arange(n)[::-1]
     elif mode == "filtered":       # what a user gets after filtering a longer list: labels with gaps
         df.index = np.arange(n) * 2 + 1
+    elif mode == "duplicated":     # what a user gets after concatenating tables: repeated labels
+        df.index = np.arange(n) // 2
     return cryomotl.Motl(df)
+
+
+def _stages(case):
+    """the table and template(s) each place_object call of a `place` case sees, from the case alone (exact): a list of one or
+    two stages dict(tdata, parts=[dict(num (over pden), q | angles, col, tdata?)]).  Stage 1 is the case after the optional
+    shift_positions(v) (complete position + R v, R = Rz(psi)Rx(theta)Rz(phi)); stage 2 after the in-place edits of `second`."""
+    den = case.get("pden", 4)
+    sp = case.get("shiftpos")
+    parts = []
+    for p in case["parts"]:
+        q = dict(num=[den * x + s for x, s in zip(p["pos"], p["shift4"])], col=list(p["col"]))
+        for k in ("q", "angles", "tdata"):
+            if k in p:
+                q[k] = p[k]
+        if sp is not None:
+            w = cube(*p["q"]) @ np.array(sp["v"])
+            q["num"] = [int(a + den * int(b)) for a, b in zip(q["num"], w)]
+        parts.append(q)
+    st1 = dict(tdata=case["tdata"], parts=parts)
+    out = [st1]
+    sec = case.get("second")
+    if sec is not None:
+        fl = lambda t: np.flip(np.array(t), axis=sec["flip"]).tolist()
+        dq, dpos, dhalf = sec.get("dq", [0, 0, 0]), sec.get("dpos", [0, 0, 0]), sec.get("dhalf", [0, 0, 0])
+        parts2 = []
+        for p in parts:
+            q = dict(p, col=[p["col"][0] + sec["coladd"] * p["col"][1], p["col"][1]],
+                     num=[a + den * b + (den // 2) * c for a, b, c in zip(p["num"], dpos, dhalf)], q=[a + b for a, b in zip(p["q"], dq)])
+            if "tdata" in p:
+                q["tdata"] = fl(p["tdata"])
+            parts2.append(q)
+        out.append(dict(tdata=fl(case["tdata"]), parts=parts2))
+    return out
+
+
+def _stage_angles(p):
+    return [float(x) for x in p["angles"]] if "angles" in p else [90.0 * q for q in p["q"]]
 
 
 def _res(a):
@@ -760,20 +966,10 @@ def _zxz(ang):
     return _rz(*cs[2]) @ _rx(*cs[1]) @ _rz(*cs[0])
 
 
-def second_case(case):
-    """the case the second place_object call of a G2 run must be judged as: template(s) flipped along one axis, colours raised"""
-    sec = case["second"]
-    ax = sec["flip"]
-    fl = lambda t: np.flip(np.array(t), axis=ax).tolist()
-    parts = []
-    for p in case["parts"]:
-        q = dict(p, col=[p["col"][0] + sec["coladd"] * p["col"][1], p["col"][1]])
-        if "tdata" in p:
-            q["tdata"] = fl(p["tdata"])
-        parts.append(q)
-    c2 = {k: v for k, v in case.items() if k != "second"}
-    c2.update(tdata=fl(case["tdata"]), parts=parts)
-    return c2
+def _sym_arg(case):
+    """the symmetry as the docstring allows it: 'C<n>', an int or a float"""
+    n = case["n"]
+    return {"int": n, "float": float(n)}.get(case["form"], f"C{n}")
 
 
 def run_impl(case):
@@ -791,6 +987,26 @@ def run_impl(case):
             obs["out_plain"] = _res(cryomap.rotate(vol, rotation=R))                       # transpose_rotation omitted: default
         else:
             obs["out_rotobj"] = _res(cryomap.rotate(vol, rotation=R, transpose_rotation=True))
+        alt = case.get("alt")
+        if alt == "radians":
+            obs["out_alt"] = _res(cryomap.rotate(vol, rotation_angles=[math.radians(a) for a in ang], degrees=False))
+        elif alt == "ZXZ":       # intrinsic ZXZ(psi, theta, phi) = Rz(psi) Rx(theta) Rz(phi) = extrinsic zxz(phi, theta, psi)
+            obs["out_alt"] = _res(cryomap.rotate(vol, rotation_angles=[ang[2], ang[1], ang[0]], coord_space="ZXZ"))
+        elif alt == "order1":    # linear interpolation reproduces samples at integer coordinates too
+            obs["out_alt"] = _res(cryomap.rotate(vol, rotation_angles=ang, spline_order=1))
+        elif alt == "tuple":
+            obs["out_alt"] = _res(cryomap.rotate(vol, rotation_angles=tuple(ang)))
+        elif alt == "ndarray":
+            obs["out_alt"] = _res(cryomap.rotate(vol, rotation_angles=np.array(ang)))
+        elif alt == "path":
+            import tempfile, os, shutil
+            tmpdir = tempfile.mkdtemp(prefix="c14_")
+            try:
+                fn = os.path.join(tmpdir, "map.mrc")
+                cryomap.write(vol, fn, data_type=np.single)
+                obs["out_alt"] = _res(cryomap.rotate(fn, rotation_angles=ang))
+            finally:
+                shutil.rmtree(tmpdir, ignore_errors=True)
         back = cryomap.rotate(out, rotation_angles=[-ang[2], -ang[1], -ang[0]])
         obs.update(back=_res(back), scipyR=np.rint(R.as_matrix()).astype(int).flatten().tolist(),
                    scipyR_dev=float(np.abs(R.as_matrix() - np.rint(R.as_matrix())).max()), inputs_unchanged=_same(vol, vol0))
@@ -808,26 +1024,63 @@ def run_impl(case):
                     face_mass=float(max(np.abs(out[0]).max(), np.abs(out[-1]).max(), np.abs(out[:, 0]).max(), np.abs(out[:, -1]).max(),
                                         np.abs(out[:, :, 0]).max(), np.abs(out[:, :, -1]).max()) / np.abs(vol).max()))
     if k == "extract":
+        vden = case.get("vden", 1)
         vol = np.array(case["data"]).astype(case.get("dtype", "float64"))
+        if vden != 1:
+            vol = vol / vden
         vol0 = vol.copy()
-        coord = np.array(case["num"], dtype=float) / case["den"]
-        coord0 = coord.copy()
-        sub = list(case["sub"])
-        # G2: the same volume, coordinate array and shape list serve every call of this case
+        as_ = lambda a, how, dt: (np.array(a, dtype=dt) if how == "ndarray" else (tuple(a) if how == "tuple" else list(a)))
+        cvals = [n / case["den"] for n in case["num"]]
+        coord = as_(cvals, case.get("coord_as", "ndarray"), float)
+        sub = as_(case["sub"], case.get("sub_as", "list"), int)
+        same_arg = lambda a, vals: bool(type(a) is type(as_(vals, "ndarray" if isinstance(a, np.ndarray) else ("tuple" if isinstance(a, tuple) else "list"), None))
+                                        and np.array_equal(np.asarray(a), np.asarray(vals)))
+        # G2: the same volume, coordinate and shape objects serve every call of this case
         obs = dict(out=_res(cryomap.extract_subvolume(vol, coord, sub)))
-        unchanged = _same(vol, vol0) and _same(coord, coord0) and sub == list(case["sub"])
+        unchanged = _same(vol, vol0) and same_arg(coord, cvals) and same_arg(sub, case["sub"])
         if case.get("enforce"):
             obs["enforce"] = _res(cryomap.extract_subvolume(vol, coord, sub, enforce_shape=True))
-        obs["again"] = _res(cryomap.extract_subvolume(vol, coord, sub))
-        if case["den"] == 1:
-            obs["crop"] = _res(cryomap.crop(vol, sub, crop_coord=[int(v) for v in case["num"]]))
-        if case.get("crop_default"):
-            obs["crop_default"] = _res(cryomap.crop(vol, sub))
-        if case.get("pad") is not None:
-            pd_ = case["pad"]
-            ns = tuple(pd_["nsize"])
-            obs["pad"] = _res(cryomap.pad(vol, ns) if pd_["fill"] is None else cryomap.pad(vol, ns, fill_value=pd_["fill"][0] / pd_["fill"][1]))
-        obs["inputs_unchanged"] = bool(unchanged and _same(vol, vol0) and _same(coord, coord0) and sub == list(case["sub"]))
+        tmpdir = None
+        try:
+            src = vol
+            if case.get("via_path"):
+                import tempfile, os
+                tmpdir = tempfile.mkdtemp(prefix="c14_")
+                src = os.path.join(tmpdir, "volume.mrc")
+                cryomap.write(vol, src, data_type=np.single)      # small integers / eighths are exact in float32
+            if case["den"] == 1:
+                obs["crop"] = _res(cryomap.crop(src, sub, crop_coord=as_([int(v) for v in case["num"]], case.get("coord_as", "ndarray"), int)))
+            if case.get("crop_default"):
+                obs["crop_default"] = _res(cryomap.crop(src, sub))
+            if case.get("pad") is not None:
+                pd_ = case["pad"]
+                ns = tuple(pd_["nsize"])
+                try:
+                    obs["pad"] = _res(cryomap.pad(src, ns) if pd_["fill"] is None else cryomap.pad(src, ns, fill_value=pd_["fill"][0] / pd_["fill"][1]))
+                except Exception as e:     # expected exactly when the new size is smaller than the volume (judged against the model's reject)
+                    obs["pad"] = dict(raised=type(e).__name__)
+        finally:
+            if tmpdir is not None:
+                import shutil
+                shutil.rmtree(tmpdir, ignore_errors=True)
+        unchanged = unchanged and _same(vol, vol0) and same_arg(coord, cvals) and same_arg(sub, case["sub"])
+        ag = case.get("again")
+        if ag is not None:      # legitimate in-place edits of the caller-owned volume and coordinate between two calls
+            vol[...] = np.flip(vol, axis=ag["flip"]) + (ag["add"] if vden == 1 else float(ag["add"]))
+            cvals2 = [(n + d) / case["den"] for n, d in zip(case["num"], ag["dnum"])]
+            if isinstance(coord, np.ndarray):
+                coord[...] = cvals2
+            elif isinstance(coord, list):
+                coord[:] = cvals2
+            else:
+                coord = tuple(cvals2)
+            vol1 = vol.copy()
+            obs["again"] = _res(cryomap.extract_subvolume(vol, coord, sub))
+            unchanged = unchanged and _same(vol, vol1) and same_arg(coord, cvals2) and same_arg(sub, case["sub"])
+        else:
+            obs["again"] = _res(cryomap.extract_subvolume(vol, coord, sub))
+            unchanged = unchanged and _same(vol, vol0)
+        obs["inputs_unchanged"] = bool(unchanged)
         return obs
     if k == "place":
         mk = lambda t: np.array(t, dtype=float) / case["tden"]
@@ -836,29 +1089,67 @@ def run_impl(case):
         eq = lambda a, b: all(_same(x, y) for x, y in zip(a, b)) if isinstance(a, list) else _same(a, b)
         tmpl0 = snap()
         motl = _motl(case)
+        unchanged = True
+        sp = case.get("shiftpos")
+        if sp is not None:      # an offset in the particle's own frame, carried into the tomogram by the orientation (documented: edits df)
+            if sp["inplace"] is False:
+                df_before = motl.df.copy(deep=True)
+                moved = motl.shift_positions(list(sp["v"]), inplace=False)
+                unchanged = unchanged and motl.df.equals(df_before)       # inplace=False must leave the original alone
+                motl = moved
+            elif sp["inplace"] is True:
+                motl.shift_positions(np.array(sp["v"]), inplace=True)
+            else:
+                motl.shift_positions(tuple(sp["v"]))
         df0 = motl.df.copy(deep=True)
         kw = {}
         if case.get("kw_feature", True):
             kw["feature_to_color"] = case["feature"]
         cont = None
+        tmpdir = None
         if case.get("cinit") is not None:
             cont = np.array(case["cinit"], dtype=float)
-            kw["volume"] = cont
+            if case.get("cinit_path"):
+                import tempfile, os
+                tmpdir = tempfile.mkdtemp(prefix="c14_")
+                kw["volume"] = os.path.join(tmpdir, "container.mrc")
+                cryomap.write(cont, kw["volume"], data_type=np.single)
+            else:
+                kw["volume"] = cont
         else:
-            kw["volume_shape"] = tuple(case["cshape"])
+            kw["volume_shape"] = tuple(case["cshape"]) if case.get("vshape_as", "tuple") == "tuple" else list(case["cshape"])
         cont0 = None if cont is None else cont.copy()
-        out = cryomap.place_object(tmpl, motl, **kw)
-        obs = dict(out=_res(out))
-        unchanged = eq(tmpl, tmpl0) and motl.df.equals(df0) and list(motl.df.index) == list(df0.index) and (cont is None or _same(cont, cont0))
-        if case.get("second") is not None:
-            sec = case["second"]
-            for t in (tmpl if isinstance(tmpl, list) else [tmpl]):       # legitimate in-place edits of caller-owned inputs
-                t[...] = np.flip(t, axis=sec["flip"]).copy()
-            motl.df[case["feature"]] = motl.df[case["feature"]] + float(sec["coladd"])
-            tmpl1, df1 = snap(), motl.df.copy(deep=True)
-            out2 = cryomap.place_object(tmpl, motl, **kw)
-            obs["out2"] = _res(out2)
-            unchanged = unchanged and eq(tmpl, tmpl1) and motl.df.equals(df1) and (cont is None or _same(cont, cont0))
+
+        def accessors():      # what the accessors place_object relies on return for the table as it is now
+            rots = motl.get_rotations()
+            return dict(angles=np.asarray(motl.get_angles(), dtype=float).tolist(), coords=np.asarray(motl.get_coordinates(), dtype=float).tolist(),
+                        R=np.asarray(rots.as_matrix(), dtype=float).reshape(-1, 9).tolist() if len(motl.df) else [])
+        try:
+            out = cryomap.place_object(tmpl, motl, **kw)
+            obs = dict(out=_res(out), acc=accessors())
+            unchanged = unchanged and eq(tmpl, tmpl0) and motl.df.equals(df0) and list(motl.df.index) == list(df0.index) and (cont is None or _same(cont, cont0))
+            if case.get("second") is not None:
+                sec = case["second"]
+                den = case.get("pden", 4)
+                for t in (tmpl if isinstance(tmpl, list) else [tmpl]):       # legitimate in-place edits of caller-owned inputs
+                    t[...] = np.flip(t, axis=sec["flip"]).copy()
+                motl.df[case["feature"]] = motl.df[case["feature"]] + float(sec["coladd"])
+                if "dq" in sec:      # the orientations and positions of the SAME table object change between the two calls
+                    for c, d in zip(("phi", "theta", "psi"), sec["dq"]):
+                        motl.df[c] = motl.df[c] + 90 * d
+                    for c, d in zip(("x", "y", "z"), sec["dpos"]):
+                        motl.df[c] = motl.df[c] + d
+                    for c, d in zip(("shift_x", "shift_y", "shift_z"), sec["dhalf"]):
+                        motl.df[c] = motl.df[c] + d / 2
+                tmpl1, df1 = snap(), motl.df.copy(deep=True)
+                out2 = cryomap.place_object(tmpl, motl, **kw)
+                obs["out2"] = _res(out2)
+                obs["acc2"] = accessors()
+                unchanged = unchanged and eq(tmpl, tmpl1) and motl.df.equals(df1) and (cont is None or _same(cont, cont0))
+        finally:
+            if tmpdir is not None:
+                import shutil
+                shutil.rmtree(tmpdir, ignore_errors=True)
         obs["inputs_unchanged"] = bool(unchanged)
         if any("angles" in p for p in case["parts"]):
             masks, margin = [], 1.0
@@ -882,22 +1173,24 @@ def run_impl(case):
         df.loc[0, ["phi", "theta", "psi"]] = case["angles"]
         df.loc[0, ["subtomo_id", "tomo_id"]] = [1, 1]
         df.loc[0, "object_id"] = float(case["col"])
-        out = cryomap.place_object(tmpl, cryomotl.Motl(df), volume_shape=tuple(case["cshape"]))       # feature_to_color omitted: default
+        motl = cryomotl.Motl(df)
+        out = cryomap.place_object(tmpl, motl, volume_shape=tuple(case["cshape"]))       # feature_to_color omitted: default
+        Racc = np.asarray(motl.get_rotations().as_matrix(), dtype=float).reshape(-1, 9).tolist()
         on = np.argwhere(out == float(case["col"]))
         other = int(((out != 0) & (out != float(case["col"]))).sum())
-        return dict(dtype=str(out.dtype), shape=list(out.shape), on=on.tolist(), other=other, inputs_unchanged=_same(tmpl, tmpl0))
+        return dict(dtype=str(out.dtype), shape=list(out.shape), on=on.tolist(), other=other, inputs_unchanged=_same(tmpl, tmpl0), R=Racc)
     if k == "symexact":
         vol = np.array(case["data"], dtype=float)
         vol0 = vol.copy()
         n = case["n"]
-        out = cryomap.symmetrize_volume(vol, n if case["form"] == "int" else f"C{n}")
+        out = cryomap.symmetrize_volume(vol, _sym_arg(case))
         rot1 = cryomap.rotate(out, rotation_angles=[0, 0, 360.0 / n])
         return dict(out=_res(out), rot1=rot1.tolist(), inputs_unchanged=_same(vol, vol0))
     if k == "symblob":
         N, n = case["N"], case["n"]
         vol = _blob(N, case["blobs"])
         vol0 = vol.copy()
-        out = cryomap.symmetrize_volume(vol, n if case["form"] == "int" else f"C{n}")
+        out = cryomap.symmetrize_volume(vol, _sym_arg(case))
         unchanged = _same(vol, vol0)
         rot1 = cryomap.rotate(out, rotation_angles=[0, 0, 360.0 / n])
         copies = [cryomap.rotate(vol, rotation_angles=[0, 0, j * 360.0 / n]) for j in range(1, n + 1)]
@@ -911,21 +1204,67 @@ def run_impl(case):
     raise ValueError("unknown kind")
 
 
-def _place_req(case, obs=None):
-    parts = []
-    for i, p in enumerate(case["parts"]):
-        d = dict(num=[4 * x + s for x, s in zip(p["pos"], p["shift4"])], den=4, col=p["col"])
-        if obs is not None and "masks" in obs:
-            d["mask"] = obs["masks"][i]
-        else:
-            d["q"] = p["q"]
-            if case.get("tlist"):
-                d["tdata"] = p["tdata"]
-        parts.append(d)
-    r = dict(op="place", cshape=case["cshape"], tdata=case["tdata"], tden=case["tden"], parts=parts)
-    if case.get("cinit") is not None:
-        r["cdata"] = case["cinit"]
-    return r
+def _rows(stage, case, before_shift=False):
+    """the table of a stage as exact rationals: 20 fields in canonical order, each [numerator, denominator]"""
+    den = case.get("pden", 4)
+    rows = []
+    for i, (p, p0) in enumerate(zip(stage["parts"], case["parts"])):
+        r = {c: [0, 1] for c in COLUMNS}
+        num = [den * x + s for x, s in zip(p0["pos"], p0["shift4"])] if before_shift else p["num"]
+        for c, x0, nn in zip("xyz", p0["pos"], num):
+            # x keeps the integer part the table holds, the shift column the rest (only their sum enters the placement)
+            r[c] = [x0, 1]
+            r["shift_" + c] = [nn - den * x0, den]
+        for c, qq in zip(("phi", "theta", "psi"), p["q"]):
+            r[c] = [90 * qq, 1]
+        r["subtomo_id"], r["tomo_id"] = [i + 1, 1], [1, 1]
+        r[case["feature"]] = list(p["col"])
+        rows.append([r[c] for c in COLUMNS])
+    return rows
+
+
+def _rows_float(stage, case):
+    den = case.get("pden", 4)
+    rows = []
+    for p, p0 in zip(stage["parts"], case["parts"]):
+        r = {c: 0.0 for c in COLUMNS}
+        for c, x0, nn in zip("xyz", p0["pos"], p["num"]):
+            r[c], r["shift_" + c] = float(x0), (nn - den * x0) / den
+        for c, a in zip(("phi", "theta", "psi"), _stage_angles(p)):
+            r[c] = a
+        rows.append([f2b(r[c]) for c in COLUMNS])
+    return rows
+
+
+def _place_reqs(case, obs):
+    """per stage: the placement request, then the accessor request (Float)"""
+    reqs = []
+    stages = _stages(case)
+    for k, st in enumerate(stages):
+        if "masks" in obs:       # arbitrary poses: the stamp masks come from the real rotate()
+            parts = [dict(num=p["num"], den=case.get("pden", 4), col=p["col"], mask=obs["masks"][i]) for i, p in enumerate(st["parts"])]
+            r = dict(op="place", cshape=case["cshape"], tdata=st["tdata"], tden=case["tden"], parts=parts)
+        else:                    # right-angle poses: the whole pipeline from the table rows, shift_positions included (stage 1)
+            first_shift = k == 0 and case.get("shiftpos") is not None
+            r = dict(op="placemotl", cshape=case["cshape"], tden=case["tden"], feature=case["feature"],
+                     templates=[p["tdata"] for p in st["parts"]] if case.get("tlist") else [st["tdata"]],
+                     rows=_rows(st, case, before_shift=first_shift))
+            if first_shift:
+                r["shift"] = list(case["shiftpos"]["v"])
+        if case.get("cinit") is not None:
+            r["cdata"] = case["cinit"]
+        reqs.append(r)
+        reqs.append(dict(op="motlrot", rows=_rows_float(st, case)))
+    return reqs
+
+
+def _extract_again(case):
+    """(data, num) the second extract of an `extract` case sees (numerators over vden / den)"""
+    ag = case.get("again")
+    if ag is None:
+        return case["data"], case["num"]
+    d = np.flip(np.array(case["data"]), axis=ag["flip"]) + ag["add"] * case.get("vden", 1)
+    return d.tolist(), [n + k for n, k in zip(case["num"], ag["dnum"])]
 
 
 def requests(case, obs):
@@ -941,22 +1280,22 @@ def requests(case, obs):
             cs += [f2b(math.cos(r)), f2b(math.sin(r))]
         return [dict(op="zxzapply", cs=cs, v=[f2b(x) for x in b[2]]) for b in case["blobs"]]
     if k == "extract":
-        reqs = [dict(op="extract", data=case["data"], num=case["num"], den=case["den"], sub=case["sub"])]
+        vd = case.get("vden", 1)
+        reqs = [dict(op="extract", data=case["data"], num=case["num"], den=case["den"], sub=case["sub"], vden=vd)]
+        d2, n2 = _extract_again(case)
+        reqs.append(dict(op="extract", data=d2, num=n2, den=case["den"], sub=case["sub"], vden=vd))
         if "crop" in obs:
             reqs.append(dict(op="crop", data=case["data"], num=case["num"], den=1, sub=case["sub"]))
         if "crop_default" in obs:
             reqs.append(dict(op="crop", data=case["data"], sub=case["sub"]))
         if "pad" in obs:
-            r = dict(op="pad", data=case["data"], nsize=case["pad"]["nsize"])
+            r = dict(op="pad", data=case["data"], nsize=case["pad"]["nsize"], vden=vd)
             if case["pad"]["fill"] is not None:
                 r["fill"] = case["pad"]["fill"]
             reqs.append(r)
         return reqs
     if k == "place":
-        reqs = [_place_req(case, obs)]
-        if "out2" in obs:
-            reqs.append(_place_req(second_case(case)))
-        return reqs
+        return _place_reqs(case, obs)
     if k == "placeblob":
         cs = []
         for a in case["angles"]:
@@ -984,29 +1323,47 @@ def _worst(mask, a, b):
 def _num(res, what, out, want_shape=None):
     """G3: a result must be an ndarray of a numeric dtype (and of the expected shape); returns the float view or None"""
     if res["type"] != "ndarray":
-        out.append(_F("spec", "result-type", f"{what}: returned a {res['type']}, not an array"))
+        out.append(_F("corr", "result-type", f"{what}: returned a {res['type']}, not an array"))
         return None
     if not (res["dtype"].startswith(("float", "int", "uint"))):
-        out.append(_F("spec", "result-dtype", f"{what}: returned dtype {res['dtype']} (a map must come back numeric, not text/object/bool)"))
+        out.append(_F("corr", "result-dtype", f"{what}: returned dtype {res['dtype']} (a map must come back numeric, not text/object/bool)"))
         return None
     if want_shape is not None and list(res["shape"]) != list(want_shape):
-        out.append(_F("spec", "result-shape", f"{what}: shape {res['shape']}, expected {list(want_shape)}"))
+        out.append(_F("corr", "result-shape", f"{what}: shape {res['shape']}, expected {list(want_shape)}"))
         return None
     return np.array(res["vals"], dtype=float).reshape(res["shape"])
 
 
-def _paint(case):
-    """independent evaluation of the placement clause (quarter-turn poses, any template size, one template or a list):
+def _stamp_start(num, den, s, conv):
+    """first container voxel of a template of size s (one axis) for a particle at 1-based complete position num/den, as the
+    STATEMENT asks for it: the template's centre voxel floor(s/2) (the voxel rotate() turns it about) on the voxel of the 0-based
+    position pos - 1.  For a whole-number position that voxel is pos - 1 itself; for a fractional one the statement does not fix the
+    rounding, and both the voxel containing it (`floor`) and the nearest voxel (`round`, half up: cryoCAT's own convention in
+    update_coordinates) are accepted.  Nothing here looks at get_start_end_indices' window formula: before the repair of defect D33
+    that formula put templates of odd size one voxel low whenever frac(pos) < 1/2."""
+    p0 = Fraction(num, den) - 1
+    if conv == "floor":
+        return math.floor(p0) - s // 2
+    return math.floor(p0 + Fraction(1, 2)) - s // 2
+
+
+def _odd_low_axes(num, den, s):
+    """axes on which the pre-repair window formula differed from the statement (statistics only): odd size, frac(pos) < 1/2"""
+    return [i for i in range(3) if s[i] % 2 == 1 and (Fraction(num[i], den) % 1) < Fraction(1, 2)]
+
+
+def _paint(case, stage, conv):
+    """independent evaluation of the placement clause (right-angle poses, any template size, one template or a list):
     painter's algorithm"""
     C = case["cshape"]
+    den = case.get("pden", 4)
     out = np.zeros(C) if case.get("cinit") is None else np.array(case["cinit"], dtype=float)
-    for p in case["parts"]:
-        t = np.array(p["tdata"] if case.get("tlist") else case["tdata"]) / case["tden"]
+    for p in stage["parts"]:
+        t = np.array(p["tdata"] if case.get("tlist") else stage["tdata"]) / case["tden"]
         s = t.shape
         c = [n // 2 for n in s]
         R = cube(*p["q"])
-        pos = [Fraction(4 * x + sh, 4) - 1 for x, sh in zip(p["pos"], p["shift4"])]
-        start = [math.floor(pos[i] - Fraction(s[i], 2)) for i in range(3)]
+        start = [_stamp_start(p["num"][i], den, s[i], conv) for i in range(3)]
         col = p["col"][0] / p["col"][1]
         for idx in itertools.product(*[range(n) for n in s]):
             if t[idx] > 0.1:
@@ -1020,6 +1377,51 @@ def _paint(case):
     return out
 
 
+def _judge_stamps(out, case, stage, got, suffix):
+    """the placement clause for one call"""
+    same = lambda e: float(np.abs(got - e).max()) <= TOL
+    exp_f = _paint(case, stage, "floor")
+    if same(exp_f) or same(_paint(case, stage, "round")):
+        return
+    d, at = _worst(np.ones(got.shape, bool), got, exp_f)
+    den = case.get("pden", 4)
+    s = np.array(stage["tdata"]).shape
+    odd = [i for i, p in enumerate(stage["parts"]) if _odd_low_axes(p["num"], den, s)]
+    out.append(_F("spec", "place-stamp" + suffix,
+                  f"voxel {at}: placed map has {got[tuple(at)]!r}, stamping the rotated thresholded template with its centre voxel floor(s/2) on the voxel of "
+                  f"pos-1 with the field value gives {exp_f[tuple(at)]!r} (template {list(s)}"
+                  + (f"; particles {odd[:5]} have an odd template axis with frac(pos) < 1/2" if odd else "") + ")"))
+
+
+def _judge_accessors(out, case, stage, acc, resp, suffix):
+    """the accessors place_object relies on, against the table the case describes (independent: numpy Rz Rx Rz of the angle columns,
+    x + shift_x in exact arithmetic) and against the Lean accessors at Float"""
+    den = case.get("pden", 4)
+    angs = [_stage_angles(p) for p in stage["parts"]]
+    R_exp = np.array([_zxz(a).flatten() for a in angs])
+    R_got = np.array(acc["R"], dtype=float)
+    if R_got.shape != R_exp.shape:
+        out.append(_F("spec", "particle-orientation" + suffix, f"get_rotations() returned {R_got.shape[0] if R_got.ndim else 0} rotations for {len(angs)} particles"))
+    else:
+        # tolerance: cos/sin of a double and two 3x3 products - a few ulp of 1; an angle wrong by 1e-9 degree would show
+        dev = np.abs(R_got - R_exp).max(axis=1)
+        i = int(np.argmax(dev))
+        if dev[i] > 1e-12:
+            out.append(_F("spec", "particle-orientation" + suffix, f"particle {i} with (phi, theta, psi) = {angs[i]}: get_rotations() gives {np.round(R_got[i], 6).tolist()}, "
+                          f"Rz(psi)Rx(theta)Rz(phi) is {np.round(R_exp[i], 6).tolist()} (max dev {dev[i]:.3g})"))
+        if np.abs(R_got - np.array([[b2f(x) for x in r] for r in resp["R"]])).max() > 1e-12:
+            out.append(_F("corr", "get-rotations-vs-model" + suffix, "get_rotations() and the Lean rowRotation at Float differ"))
+    c_exp = np.array([[n / den for n in p["num"]] for p in stage["parts"]], dtype=float)
+    c_got = np.array(acc["coords"], dtype=float)
+    if c_got.shape != c_exp.shape or np.abs(c_got - c_exp).max() > 1e-9:
+        out.append(_F("spec", "particle-position" + suffix, f"get_coordinates() = {c_got.tolist()[:3]}..., the complete positions x + shift are {c_exp.tolist()[:3]}..."))
+    elif np.abs(c_got - np.array([[b2f(x) for x in r] for r in resp["coords"]])).max() > 1e-9:
+        out.append(_F("corr", "get-coordinates-vs-model" + suffix, "get_coordinates() and the Lean getCoordinates at Float differ"))
+    a_got = np.array(acc["angles"], dtype=float)
+    if a_got.shape != np.array(angs).shape or np.abs(a_got - np.array(angs)).max() > 1e-12:
+        out.append(_F("corr", "get-angles" + suffix, f"get_angles() = {a_got.tolist()[:3]}..., the table holds {angs[:3]}..."))
+
+
 def _window(vol, start, s, fill):
     V = vol.shape
     exp = np.full(s, fill, dtype=float)
@@ -1030,7 +1432,8 @@ def _window(vol, start, s, fill):
     return exp
 
 
-def _judge_crop(out, vol, start, s, res, resp, tag, how):
+def _judge_crop(out, vol, start, s, res, resp, tag, how, vden=1):
+    """crop is not a clause of the statement (it speaks of extract_subvolume): documented behaviour, corr"""
     V = vol.shape
     lo = [min(max(0, start[i]), V[i]) for i in range(3)]
     hi = [max(min(V[i], start[i] + s[i]), 0) for i in range(3)]
@@ -1039,10 +1442,10 @@ def _judge_crop(out, vol, start, s, res, resp, tag, how):
     if got is None:
         return
     if list(got.shape) != exps:
-        out.append(_F("spec", "crop-shape", f"{how} returned shape {list(got.shape)}, the window clipped to the volume is {exps}"))
+        out.append(_F("corr", "crop-shape", f"{how} returned shape {list(got.shape)}, the window clipped to the volume is {exps}"))
     elif 0 not in exps and not np.array_equal(got, vol[lo[0]:hi[0], lo[1]:hi[1], lo[2]:hi[2]]):
-        out.append(_F("spec", "crop-content", f"{how} is not the clipped window [{lo}:{hi}]"))
-    if resp["shape"] != list(got.shape) or (0 not in exps and 0 not in got.shape and np.abs(np.array(resp["data"], dtype=float) - got).max() > TOL):
+        out.append(_F("corr", "crop-content", f"{how} is not the clipped window [{lo}:{hi}]"))
+    if resp["shape"] != list(got.shape) or (0 not in exps and 0 not in got.shape and np.abs(np.array(resp["data"], dtype=float) / vden - got).max() > TOL):
         out.append(_F("corr", "crop-vs-model", f"{how}: model shape {resp['shape']} impl {list(got.shape)}"))
 
 
@@ -1055,12 +1458,13 @@ def judge(case, obs, resps):
             return [_F("corr", "harness-or-library-raised", f"{k}: {obs['error']} (no cryocat frame in the traceback)")]
         return [_F("spec", "raises", f"{k}: {obs['error']} @{obs.get('where', '')}")]
     for r in resps:
-        if "error" in r:
+        if "error" in r and r["error"] != "reject:smaller":      # (pad to a smaller size: the model's reject branch, judged below)
             out.append(_F("corr", "model-rejects", f"{k}: {r}"))
     if out:
         return out
     if obs.get("inputs_unchanged") is False:
-        out.append(_F("spec", "caller-input-modified", f"{k}: an array / table / list passed as argument was edited in place by the call"))
+        # not a clause of the statement (an edited input shows as a spec finding in the second call of the same case if it matters): corr
+        out.append(_F("corr", "caller-input-modified", f"{k}: an array / table / list passed as argument was edited in place by the call"))
     if k == "rot24":
         shape = case["shape"]
         vol = np.array(case["data"], dtype=float)
@@ -1098,6 +1502,12 @@ def judge(case, obs, resps):
                 if d5 > TOL or d6 > TOL:
                     out.append(_F("corr", "rotate-default-transpose", f"rotate(rotation=R) with the default transpose_rotation is not the map rotated by R^-1: "
                                   f"voxel {at5 if d5 > TOL else at6} off by {max(d5, d6)}"))
+        if "out_alt" in obs:     # non-default options / argument forms: documented behaviour, not a clause of the statement (corr)
+            g4 = _num(obs["out_alt"], f"rotate ({case['alt']})", out, shape)
+            if g4 is not None:
+                d7, at7 = _worst(m_val | m_zero, g4, exp)
+                if d7 > (1e-6 if case["alt"] == "path" else TOL):      # a map read from a file is float32
+                    out.append(_F("corr", "rotate-nondefault-option", f"rotate with {case['alt']} differs from the map rotated by R at {at7} by {d7}"))
         fwd = _src(R, shape)     # where voxel u of the input lands: c + R (u - c)
         m_back = o_int & _interior(fwd, shape)
         gb = _num(obs["back"], "rotate (inverse)", out, shape)
@@ -1114,7 +1524,7 @@ def judge(case, obs, resps):
         N = case["N"]
         c = N // 2
         if not obs["dtype"].startswith("float"):
-            out.append(_F("spec", "result-dtype", f"rotate returned dtype {obs['dtype']}"))
+            out.append(_F("corr", "result-dtype", f"rotate returned dtype {obs['dtype']}"))
         centres, devR = [], 0.0
         Rs = np.array(obs["scipyR"]).reshape(3, 3)
         for b, r in zip(case["blobs"], resps):
@@ -1131,42 +1541,51 @@ def judge(case, obs, resps):
         exp = _blob(N, case["blobs"], [[c + x for x in Rn @ np.array(b[2])] for b in case["blobs"]])
         got = np.array(obs["out"])
         err = float(np.abs(got - exp).max() / np.abs(exp).max())
-        if err > TOL_BLOB:
+        if err > _tol_blob([b[1] for b in case["blobs"]]):
             out.append(_F("spec", "rotate-active-blob", f"angles={case['angles']}: rotated map differs from the Gaussians re-centred at c+R*v by {err:.3f} of the peak"))
         errm = float(np.abs(exp - _blob(N, case["blobs"], centres)).max() / np.abs(exp).max())
         if errm > 1e-9:
             out.append(_F("corr", "zxz-model-vs-numpy", f"Lean zxz at Float and numpy Rz Rx Rz place the blobs {errm:.2e} apart"))
-        if obs["inv_err"] > TOL_BLOB:
+        if obs["inv_err"] > _tol_blob([b[1] for b in case["blobs"]], passes=2):
             out.append(_F("spec", "rotate-inverse-blob", f"rotate(R^-1) after rotate(R) differs from the map by {obs['inv_err']:.3f} of the peak"))
         return out
     if k == "extract":
-        vol = np.array(case["data"], dtype=float)
-        V, s = vol.shape, case["sub"]
-        start = _floor_start(case["num"], case["den"], s)
-        mean = float(Fraction(int(np.array(case["data"]).sum()), vol.size))
-        exp = _window(vol, start, s, mean)
-        how = f"coord={case['num']}/{case['den']} sub={s} vol={list(V)} dtype={case.get('dtype', 'float64')}"
+        vd = case.get("vden", 1)
+        s_ = case["sub"]
         got = None
-        for key, label in (("out", "window-content"), ("again", "window-content-second-call")):
+        d2, n2 = _extract_again(case)
+        for key, label, data, num, resp in (("out", "window-content", case["data"], case["num"], resps[0]),
+                                            ("again", "window-content-second-call", d2, n2, resps[1])):
+            vol = np.array(data, dtype=float) / vd
+            V = vol.shape
+            start = _floor_start(num, case["den"], s_)
+            mean = float(Fraction(int(np.array(data).sum()), vol.size * vd))
+            exp = _window(vol, start, s_, mean)
+            how = f"coord={num}/{case['den']} sub={s_} vol={list(V)} dtype={case.get('dtype', 'float64')}"
             g = _num(obs[key], f"extract_subvolume ({key})", out)
             if g is None:
                 continue
-            if list(g.shape) != list(s):
-                out.append(_F("spec", "window-shape", f"requested {s}, got {list(g.shape)}"))
+            if list(g.shape) != list(s_):
+                out.append(_F("spec", "window-shape", f"requested {s_}, got {list(g.shape)}"))
                 continue
-            d, at = _worst(np.ones(s, bool), g, exp)
+            d, at = _worst(np.ones(s_, bool), g, exp)
             if d > TOL:
                 out.append(_F("spec", label, f"{how}: out{at}={g[tuple(at)]!r}, window says {exp[tuple(at)]!r}"))
+            if resp["start"] != start:
+                out.append(_F("corr", "window-start", f"model start {resp['start']} vs floor(coord - s/2) = {start}"))
+            model = _ratvol(resp["data"])
+            dm, atm = _worst(np.ones(s_, bool), g, model)
+            if dm > TOL:
+                out.append(_F("corr", "extract-vs-model", f"{key}: voxel {atm}: impl {g[tuple(atm)]!r} model {model[tuple(atm)]!r}"))
             if key == "out":
                 got = g
         if got is None:
             return out
-        if resps[0]["start"] != start:
-            out.append(_F("corr", "window-start", f"model start {resps[0]['start']} vs floor(coord - s/2) = {start}"))
-        model = _ratvol(resps[0]["data"])
-        d2, at2 = _worst(np.ones(s, bool), got, model)
-        if d2 > TOL:
-            out.append(_F("corr", "extract-vs-model", f"voxel {at2}: impl {got[tuple(at2)]!r} model {model[tuple(at2)]!r}"))
+        vol = np.array(case["data"], dtype=float) / vd
+        V, s = vol.shape, s_
+        start = _floor_start(case["num"], case["den"], s)
+        mean = float(Fraction(int(np.array(case["data"]).sum()), vol.size * vd))
+        how = f"coord={case['num']}/{case['den']} sub={s} vol={list(V)} dtype={case.get('dtype', 'float64')}"
         if "enforce" in obs:       # enforce_shape=True is an option the statement does not speak about: documented behaviour, corr
             ge = _num(obs["enforce"], "extract_subvolume(enforce_shape=True)", out)
             if ge is not None:
@@ -1175,84 +1594,110 @@ def judge(case, obs, resps):
                 expe = np.where(inwin, vol, mean)
                 if list(ge.shape) != list(V) or np.abs(ge - expe).max() > TOL or np.abs(ge - _ratvol(resps[0]["enforce"])).max() > TOL:
                     out.append(_F("corr", "extract-enforce-shape", f"{how}: enforce_shape=True is not the volume with everything outside the window set to the mean"))
-        ri = 1
+        ri = 2
         if "crop" in obs:
-            _judge_crop(out, vol, start, s, obs["crop"], resps[ri], "crop", f"crop(crop_coord={case['num']}) {how}")
+            _judge_crop(out, vol, start, s, obs["crop"], resps[ri], "crop", f"crop(crop_coord={case['num']}) {how}", vd)
             ri += 1
         if "crop_default" in obs:
             startc = [math.floor(Fraction(V[i] // 2) - Fraction(s[i], 2)) for i in range(3)]
-            _judge_crop(out, vol, startc, s, obs["crop_default"], resps[ri], "crop (default centre)", f"crop() about the box centre {[v // 2 for v in V]} {how}")
+            _judge_crop(out, vol, startc, s, obs["crop_default"], resps[ri], "crop (default centre)", f"crop() about the box centre {[v // 2 for v in V]} {how}", vd)
             ri += 1
         if "pad" in obs:           # pad is not a clause of the statement: documented behaviour, corr
+            ns, fl = case["pad"]["nsize"], case["pad"]["fill"]
+            smaller = any(n < v for n, v in zip(ns, V))
+            if smaller or "raised" in obs["pad"] or "error" in resps[ri]:
+                # the model's reject branch: a new size below the volume's cannot hold it - the real pad must refuse (it raises from the
+                # slice assignment) exactly then
+                if not (smaller and "raised" in obs["pad"] and resps[ri].get("error") == "reject:smaller"):
+                    out.append(_F("corr", "pad-reject", f"pad({list(V)} -> {ns}): new size smaller on an axis = {smaller}, impl raised = {obs['pad'].get('raised')}, "
+                                  f"model = {resps[ri].get('error', 'accepts')}"))
+                return out
             gp = _num(obs["pad"], "pad", out)
             if gp is not None:
-                ns, fl = case["pad"]["nsize"], case["pad"]["fill"]
                 expp = np.full(ns, mean if fl is None else fl[0] / fl[1], dtype=float)
                 st = [math.ceil(Fraction(ns[i] - V[i], 2)) for i in range(3)]
                 expp[st[0]:st[0] + V[0], st[1]:st[1] + V[1], st[2]:st[2] + V[2]] = vol
-                if list(gp.shape) != list(ns) or np.abs(gp - expp).max() > TOL or np.abs(gp - _ratvol(resps[ri]["data"])).max() > TOL:
+                # a volume read from a file is float32: np.mean then rounds to float32 (relative 6e-8), everything else stays exact
+                tolp = 1e-6 * (1 + abs(mean)) if case.get("via_path") else TOL
+                if list(gp.shape) != list(ns) or np.abs(gp - expp).max() > tolp or np.abs(gp - _ratvol(resps[ri]["data"])).max() > tolp:
                     out.append(_F("corr", "pad", f"pad({list(V)} -> {ns}, fill={fl}) is not the volume centred at ceil((new-old)/2) in a block of the fill value"))
         return out
     if k == "place":
-        got = _num(obs["out"], "place_object", out)
-        if got is None:
-            return out
-        if list(got.shape) != list(case["cshape"]):
-            return out + [_F("spec", "place-shape", f"container {case['cshape']} -> {list(got.shape)}")]
-        if "masks" not in obs:
-            exp = _paint(case)
-            d, at = _worst(np.ones(got.shape, bool), got, exp)
-            if d > TOL:
-                out.append(_F("spec", "place-stamp", f"voxel {at}: placed map has {got[tuple(at)]!r}, stamping the rotated thresholded template at pos-1 with the field value gives {exp[tuple(at)]!r}"))
-        elif obs["margin"] < 1e-6:
-            return out   # a rotated template value within rounding of the threshold: outcome depends on rounding (excluded)
-        model = _ratvol(resps[0]["data"])
-        d2, at2 = _worst(np.ones(got.shape, bool), got, model)
-        if d2 > TOL:
-            # arbitrary poses: the stamp masks come from the implementation's own rotate(), so this is a consistency check (corr), never spec
-            out.append(_F("corr", "place-vs-model" if "masks" not in obs else "place-stamp-given-masks",
-                          f"voxel {at2}: impl {got[tuple(at2)]!r} model {model[tuple(at2)]!r}"))
-        if "out2" in obs:
-            c2 = second_case(case)
-            g2 = _num(obs["out2"], "place_object (second call)", out, case["cshape"])
-            if g2 is not None:
-                exp2 = _paint(c2)
-                d3, at3 = _worst(np.ones(g2.shape, bool), g2, exp2)
-                if d3 > TOL:
-                    out.append(_F("spec", "place-stamp-second-call", f"second call on the same (edited) template and list: voxel {at3} has {g2[tuple(at3)]!r}, "
-                                  f"stamping gives {exp2[tuple(at3)]!r}"))
-                d4, at4 = _worst(np.ones(g2.shape, bool), g2, _ratvol(resps[1]["data"]))
-                if d4 > TOL:
-                    out.append(_F("corr", "place-vs-model-second-call", f"voxel {at4}"))
+        stages = _stages(case)
+        for kk, (st, okey, akey, suffix) in enumerate(zip(stages, ("out", "out2"), ("acc", "acc2"), ("", "-second-call"))):
+            if okey not in obs:
+                continue
+            rp, ra = resps[2 * kk], resps[2 * kk + 1]
+            got = _num(obs[okey], "place_object" + suffix, out)
+            if got is None:
+                continue
+            if list(got.shape) != list(case["cshape"]):
+                out.append(_F("corr", "place-shape" + suffix, f"container {case['cshape']} -> {list(got.shape)}"))
+                continue
+            _judge_accessors(out, case, st, obs[akey], ra, suffix)
+            if "masks" not in obs:
+                _judge_stamps(out, case, st, got, suffix)
+                # the Lean pipeline from the table rows: positions, orientations and stamp starts it derived
+                den = case.get("pden", 4)
+                if [[Fraction(n, d) for n, d in c] for c in rp["coords"]] != [[Fraction(n, den) for n in p["num"]] for p in st["parts"]]:
+                    out.append(_F("corr", "model-coordinates" + suffix, "Lean getCoordinates (after shiftPositions) differs from complete position + R v"))
+                if rp["R"] != [cube(*p["q"]).flatten().tolist() for p in st["parts"]]:
+                    out.append(_F("corr", "model-orientations" + suffix, "Lean rowCube differs from Rz(psi)Rx(theta)Rz(phi)"))
+                s = np.array(st["tdata"]).shape
+                want = [[_stamp_start(p["num"][i], den, s[i], "floor") for i in range(3)] for p in st["parts"]]
+                if rp["starts"] != want or rp["spec"] != want:
+                    out.append(_F("corr", "model-stamp-start" + suffix, "Lean placeStartQ / specStartQ differ from floor(pos-1) - floor(s/2)"))
+            elif obs["margin"] < 1e-6:
+                continue   # a rotated template value within rounding of the threshold: outcome depends on rounding (excluded)
+            model = _ratvol(rp["data"])
+            d2, at2 = _worst(np.ones(got.shape, bool), got, model)
+            if d2 > TOL:
+                # arbitrary poses: the stamp masks come from the implementation's own rotate(), so this is a consistency check (corr), never spec
+                out.append(_F("corr", ("place-vs-model" if "masks" not in obs else "place-stamp-given-masks") + suffix,
+                              f"voxel {at2}: impl {got[tuple(at2)]!r} model {model[tuple(at2)]!r}"))
         return out
     if k == "placeblob":
         if not obs["dtype"].startswith(("float", "int", "uint")) or obs["shape"] != list(case["cshape"]):
-            return out + [_F("spec", "result-dtype", f"place_object returned dtype {obs['dtype']} shape {obs['shape']}")]
+            return out + [_F("corr", "result-dtype", f"place_object returned dtype {obs['dtype']} shape {obs['shape']}")]
         T, C = case["tshape"], case["cshape"]
         c = [t // 2 for t in T]
         Rn = _zxz(case["angles"])
-        start = [math.floor(Fraction(case["pos4"][i], 4) - 1 - Fraction(T[i], 2)) for i in range(3)]
-        ctr = np.array(start) + np.array(c) + Rn @ np.array(case["v"])       # pos - 1 + R v up to the floor of the window start
-        ana = _gauss(C, ctr, case["sigma"])
         onm = np.zeros(C, bool)
         for p in obs["on"]:
             onm[tuple(p)] = True
-        sure_on, sure_off = ana > 0.1 + BLOB_SHELL, ana < 0.1 - BLOB_SHELL
-        bad = (sure_on & ~onm) | (sure_off & onm)
-        if obs["other"] or bad.any():
-            at = [int(x) for x in np.argwhere(bad)[0]] if bad.any() else None
-            out.append(_F("spec", "place-blob-mask", f"angles={case['angles']} pos={[p / 4 for p in case['pos4']]} v={case['v']}: voxel {at} "
-                          f"{'is' if at and onm[tuple(at)] else 'is not'} stamped, the Gaussian centred at start+floor(s/2)+R v = {ctr.round(3).tolist()} "
-                          f"says otherwise ({int(bad.sum())} voxels differ outside the threshold shell, {obs['other']} voxels with another value)"))
-        if len(obs["on"]):
-            com = np.array(obs["on"], dtype=float).mean(axis=0)
-            ref = np.argwhere(ana > 0.1).astype(float).mean(axis=0)
-            dev = float(np.abs(com - ref).max())
-            if dev > 0.1 or float(np.abs(ref - ctr).max()) > 0.25:
-                out.append(_F("spec", "place-blob-centre", f"centre of mass of the stamped voxels {com.round(3).tolist()} vs pos-1+R v = {ctr.round(3).tolist()} "
-                              f"(same ball discretised there: {ref.round(3).tolist()}): off by {dev:.3f} voxel"))
-        else:
-            out.append(_F("spec", "place-blob-centre", "nothing stamped"))
+
+        def blob_findings(conv):
+            """the clause under one reading of `at the particle's complete position` (see _stamp_start)"""
+            fs = []
+            start = [_stamp_start(case["pos4"][i], 4, T[i], conv) for i in range(3)]
+            ctr = np.array(start) + np.array(c) + Rn @ np.array(case["v"])       # centre voxel of the template + R v
+            ana = _gauss(C, ctr, case["sigma"])
+            sure_on, sure_off = ana > 0.1 + BLOB_SHELL, ana < 0.1 - BLOB_SHELL
+            bad = (sure_on & ~onm) | (sure_off & onm)
+            if obs["other"] or bad.any():
+                at = [int(x) for x in np.argwhere(bad)[0]] if bad.any() else None
+                fs.append(("place-blob-mask", f"angles={case['angles']} pos={[p / 4 for p in case['pos4']]} v={case['v']}: voxel {at} "
+                           f"{'is' if at and onm[tuple(at)] else 'is not'} stamped, the Gaussian centred at (voxel of pos-1)+R v = {ctr.round(3).tolist()} "
+                           f"says otherwise ({int(bad.sum())} voxels differ outside the threshold shell, {obs['other']} voxels with another value)"))
+            if len(obs["on"]):
+                com = np.array(obs["on"], dtype=float).mean(axis=0)
+                ref = np.argwhere(ana > 0.1).astype(float).mean(axis=0)
+                dev = float(np.abs(com - ref).max())
+                if dev > 0.1 or float(np.abs(ref - ctr).max()) > 0.25:
+                    fs.append(("place-blob-centre", f"centre of mass of the stamped voxels {com.round(3).tolist()} vs (voxel of pos-1)+R v = {ctr.round(3).tolist()} "
+                               f"(same ball discretised there: {ref.round(3).tolist()}): off by {dev:.3f} voxel"))
+            else:
+                fs.append(("place-blob-centre", "nothing stamped"))
+            return fs
+        f_floor = blob_findings("floor")
+        if f_floor and blob_findings("round"):
+            for cl, det in f_floor:
+                out.append(_F("spec", cl, det))
+        if "R" in obs:      # the orientation place_object used, against Rz(psi)Rx(theta)Rz(phi) of the angle columns (a few ulp)
+            Rg = np.array(obs["R"], dtype=float)
+            if Rg.shape != (1, 9) or np.abs(Rg[0] - Rn.flatten()).max() > 1e-12:
+                out.append(_F("spec", "particle-orientation", f"(phi, theta, psi) = {case['angles']}: get_rotations() gives {np.round(Rg, 6).tolist()}, "
+                              f"Rz(psi)Rx(theta)Rz(phi) is {np.round(Rn.flatten(), 6).tolist()}"))
         w = np.array([b2f(x) for x in resps[0]["Rv"]])
         if float(np.abs(w - Rn @ np.array(case["v"])).max()) > 1e-12:
             out.append(_F("corr", "zxz-model-vs-numpy", f"Lean zxz v = {w.tolist()} vs numpy {(Rn @ np.array(case['v'])).tolist()}"))
@@ -1298,7 +1743,7 @@ def judge(case, obs, resps):
     if k == "symblob":
         n = case["n"]
         if not obs["dtype"].startswith("float") or obs["shape"] != [case["N"]] * 3:
-            out.append(_F("spec", "result-dtype", f"symmetrize_volume returned dtype {obs['dtype']} shape {obs['shape']}"))
+            out.append(_F("corr", "result-dtype", f"symmetrize_volume returned dtype {obs['dtype']} shape {obs['shape']}"))
         got = np.array([[[b2f(x) for x in r] for r in pl] for pl in obs["out"]])
         # the statement's clause evaluated independently of rotate(), symmetrize_volume() and the model: the mean of the n copies of
         # isotropic Gaussians is the mean of the Gaussians re-centred at c + Rz(k*360/n) v (numpy cos/sin)
@@ -1310,14 +1755,14 @@ def judge(case, obs, resps):
             exp += _blob(N, case["blobs"], [[c + x for x in Rk @ np.array(b[2])] for b in case["blobs"]])
         exp /= n
         erra = float(np.abs(got - exp[1:-1:3, 1:-1:3, 1:-1:3]).max() / np.abs(exp).max())       # relative to the peak of the symmetrised map
-        if erra > TOL_BLOB:
+        if erra > _tol_blob([b[1] for b in case["blobs"]]):
             out.append(_F("spec", "sym-mean-of-rotated-copies", f"n={n}: symmetrised map differs from the mean of the {n} Gaussians-rotated-by-k*360/{n} by {erra:.3f} of the peak"))
-        if obs["total_err"] > TOL_BLOB:
+        if obs["total_err"] > _tol_blob([b[1] for b in case["blobs"]]):
             out.append(_F("spec", "sym-total-density", f"n={n}: total density changed by {obs['total_err']:.3f}"))
         # consistency with the library's own rotate(): the copies it produces, and rotating the result by 360/n (not independent: corr)
         if obs["mean_err"] > TOL:
             out.append(_F("corr", "sym-vs-mean-of-rotate-copies", f"n={n}: differs from the mean of rotate(vol, k*360/{n}) by {obs['mean_err']:.3g} of the peak"))
-        if obs["inv_err"] > TOL_BLOB:
+        if obs["inv_err"] > _tol_blob([b[1] for b in case["blobs"]], passes=2):
             out.append(_F("corr", "sym-invariant-under-rotate", f"n={n}: rotate(sym, 360/{n}) differs from sym by {obs['inv_err']:.3f} of the peak"))
         model = np.array([[[b2f(x) for x in r] for r in pl] for pl in resps[0]["data"]])
         dm = float(np.abs(got - model).max())
@@ -1367,14 +1812,15 @@ def stats(case, obs, resps):
         st["rot24:box"] = "x".join(map(str, case["shape"]))
         st["rot24:matrix"] = "".join("+0-"[0 if x > 0 else (1 if x == 0 else 2)] for x in cube(*case["q"]).flatten())
         st["rot24:rotation-object call"] = "transpose_rotation omitted (default)" if case.get("plain") else "transpose_rotation=True"
+        st["rot24:extra call"] = str(case.get("alt"))
         st["rot24:centre floor-halves first/last differ"] = str(case["shape"][0] // 2 != case["shape"][2] // 2)
     elif k == "rotblob":
-        st["rotblob:inverse_error(of peak, tol 0.01)"] = "%.3f" % obs["inv_err"]
+        st["rotblob:inverse_error(of peak)"] = "%.3f" % obs["inv_err"]
         try:
             c = case["N"] // 2
             Rn = _zxz(case["angles"])
             exp = _blob(case["N"], case["blobs"], [[c + x for x in Rn @ np.array(b[2])] for b in case["blobs"]])
-            st["rotblob:active_error(of peak, tol 0.01)"] = "%.3f" % float(np.abs(np.array(obs["out"]) - exp).max() / np.abs(exp).max())
+            st["rotblob:active_error(of peak)"] = "%.3f" % float(np.abs(np.array(obs["out"]) - exp).max() / np.abs(exp).max())
         except Exception:
             pass
     elif k == "extract":
@@ -1387,6 +1833,12 @@ def stats(case, obs, resps):
         st["extract:den"] = case["den"]
         st["extract:volume_dtype"] = case.get("dtype", "float64")
         st["extract:calls"] = "+".join(["extract", "again"] + [x for x in ("enforce", "crop", "crop_default", "pad") if x in obs])
+        st["extract:voxels"] = "eighths" if case.get("vden", 1) != 1 else "integers"
+        st["extract:argument forms"] = f"coord {case.get('coord_as', 'ndarray')}, shape {case.get('sub_as', 'list')}"
+        st["extract:edited in place before second call"] = str(case.get("again") is not None)
+        st["extract:crop/pad through file name"] = str(bool(case.get("via_path")))
+        if "pad" in obs and "raised" in obs["pad"]:
+            st["extract:pad to a smaller size"] = "raised " + obs["pad"]["raised"]
         if "pad" in obs:
             st["extract:pad_fill"] = "default(mean)" if case["pad"]["fill"] is None else "given"
     elif k == "place":
@@ -1398,6 +1850,14 @@ def stats(case, obs, resps):
         st["place:template"] = ("list " if case.get("tlist") else "single ") + ("even" if all(x % 2 == 0 for x in case["tshape"]) else ("odd" if all(x % 2 == 1 for x in case["tshape"]) else "mixed"))
         st["place:template all axes odd >= 9"] = str(all(x % 2 == 1 and x >= 9 for x in case["tshape"]))
         st["place:second call on edited inputs"] = str("out2" in obs)
+        st["place:shift_positions first"] = "no" if case.get("shiftpos") is None else f"inplace={case['shiftpos']['inplace']}"
+        st["place:columns"] = "int64 where whole" if case.get("intcols") else "float"
+        st["place:position grid"] = "1/%d" % case.get("pden", 4)
+        try:
+            s_ = np.array(case["tdata"]).shape
+            st["place:odd template axis with frac(pos)<1/2 (class of defect D33)"] = str(any(_odd_low_axes(p["num"], case.get("pden", 4), s_) for stg in _stages(case) for p in stg["parts"]))
+        except Exception:
+            pass
         if case.get("tlist"):
             qs = [tuple(p["q"]) for p in case["parts"]]
             st["place:list with repeated angles"] = str(len(set(qs)) < len(qs))
@@ -1405,9 +1865,10 @@ def stats(case, obs, resps):
         st["placeblob:stamped_voxels"] = 10 * (len(obs["on"]) // 10)
     elif k in ("symexact", "symblob"):
         st[k + ":n"] = case["n"]
+        st[k + ":symmetry given as"] = case.get("form", "int")
         if k == "symblob":
-            st["symblob:invariance_error(of peak, tol 0.01)"] = "%.3f" % obs["inv_err"]
-            st["symblob:total_density_error(tol 0.01)"] = "%.4f" % obs["total_err"]
+            st["symblob:invariance_error(of peak)"] = "%.3f" % obs["inv_err"]
+            st["symblob:total_density_error"] = "%.4f" % obs["total_err"]
             st["symblob:mean_of_copies_error(tol 1e-9)"] = "%.0e" % obs["mean_err"]
         else:
             st["symexact:box"] = "x".join(map(str, case["shape"]))
@@ -1427,7 +1888,7 @@ def sample_view(case):
 
 
 def classify(case, obs, finding):
-    return None
+    return None      # C14 has no open known finding
 
 
 def probes(rng):
@@ -1456,7 +1917,8 @@ LEVEL_TEXT = ("Lean 4 theorems about an index-level executable model of cryomap.
               "place_object / symmetrize_volume: active index law out[c+Rv]=in[c+v] for every orthogonal integer matrix and the 24 enumerated "
               "cube rotations (= all quarter-turn zxz triples), inverse rotation restores, the continuous coordinate law over any commutative "
               "ring, window and stamping specifications from the clipping formulas, painter's-algorithm characterisation of the placement "
-              "loop with the template centre (any template shape) landing on floor(pos-1-s/2)+floor(s/2)+Rv, invariance + conservation for the mean over "
+              "loop with the template centre (any template shape) landing on floor(pos-1)+Rv, the particle accessors and shift_positions "
+              "(complete position moves by R v, the stamp with it), the stamp start meets the statement for every template size, invariance + conservation for the mean over "
               "an exact cyclic action and its instantiation (total density over the voxel set of a box) for the executable n in {1,2,4} model; "
               "tied to the source by regenerated statement/expression anchors and an exact differential run against the real functions")
 LEVEL_NOTE = ("partial: spline interpolation accuracy (the 1 % clauses on smooth blobs, n not dividing 4) is validated against analytic Gaussians "
